@@ -13,10 +13,10 @@ DEFAULT_NOTE = ('Trusted: Coq 8.16.1 kernel (incl. vm_compute; no native_compute
 LEVEL_TEXT = {
  'C01': 'Coq theorems over the faithful MemMapFs model (coq/Model/MemFs.v): child-index invariant WF preserved by every well-formed op sequence, failed calls are no-ops, listing/paging, rename moves subtrees, spelling (clean) invariance, a simulation against an independent POSIX spec (coq/Model/Posix.v), and — for every state and every name — nothing is created below a regular file (ENOTDIR, only the clock moves). Tie: every generated sequence (well-formed and malformed) is run on the real MemMapFs and on the extracted model incl. full dumps of the path map and child index; oracle: the same well-formed program (creating calls below a regular file included) on OsFs in a fresh temp dir (step results + final Stat/ReadDir/ReadFile sweep).',
  'C02': 'Coq refinement theorem: for all contents, handle sets and op sequences the model of mem.File equals the flat byte-array spec (ByteFile.v) under projection, never panics, inert handles never change data. Tie: differential run of mem.File (direct handles and through MemMapFs) against model and spec, exhaustive over short sequences.',
- 'C03': 'PARTIAL. Coq model of the lock discipline of memmap.go/mem/file.go (sections between lock operations) with theorems over all schedules (no deadlock, no unlock error, lockset, quiescent consistency on the single-section fragment); the Go memory model and scheduler are outside the model: supported by a -race stress harness in child processes, a lock-sequence table extracted from the source each run, and a post-quiescence consistency sweep.',
- 'C04': 'PARTIAL. Coq theorem: every history of a machine whose calls take effect in one atomic step of the sequential model is linearizable (any threads, any schedule); multi-section methods are treated by explicit section abstractions. Tie/search: concurrent histories of the real MemMapFs are recorded and searched for a linearization against the EXTRACTED sequential model (Wing-Gong in OCaml) plus direct checks of the exactly-one-winner and torn-read clauses.',
+ 'C03': 'PARTIAL. Coq model of the lock discipline of memmap.go/mem/file.go (one action per lock operation; the per-function lock table is regenerated from the AST on every run and must equal the declared one) with theorems over all schedules and all programs of the class: every conflicting pair of annotated accesses is ordered (lockset / happens-before), no deadlock (lock order), no unlock error, no lock leak, locks balanced after a panic, quiescent tree consistency. The Go memory model, the race detector and the scheduler are outside the model: -race stress in child processes (pair matrix + random program sets, watchdog for deadlocks, race-report parser) and a post-quiescence consistency sweep search for failing executions.',
+ 'C04': 'PARTIAL. Coq theorem: every history of a machine whose calls take effect in one atomic step of the sequential model is linearizable (any threads, any schedule); methods with several critical sections are modelled by explicit section tables whose shape is read from the source on every run (today: all in the one-section position, by reflexivity facts), with refutation theorems for every split shape. Tie/search: concurrent histories of the real MemMapFs (stress under real preemption, window programs, and an instrumented cooperative scheduler exploring schedules by DFS/random) are searched for a linearization against the EXTRACTED sequential model (verified checker) plus direct checks of the exactly-one-winner and torn-read clauses. Outside the model: which Go lock protects which section against which handle operation.',
  'C05': 'Coq theorems for ANY base satisfying contract K and any overlay: every call CopyOnWriteFs/UnionFile/copy-up makes on the base is one a ReadOnlyFs would forward, hence the base view is frozen over all op sequences and flag words; K proved for MemMapFs. Tie: cow(mem,mem) differential against the model; oracle: deep snapshot of the base before/after every step incl. all 4096 combinations of 12 O_* bits.',
- 'C06': 'Coq theorems over arbitrary inner filesystems: lookup is overlay-then-base, merged listing is duplicate-free union with overlay winning, pages partition the listing, Readdir(-1) consumes it; copy-up/write-read-back proved for MemMapFs layers under stated shape hypotheses (_partial). Tie + oracle: union view compared with overlay-over-base computed from direct dumps of both layers after every step, listings in pages.',
+ 'C06': 'Coq theorems over arbitrary inner filesystems: lookup is overlay-then-base, merged listing is duplicate-free union with overlay winning, pages partition the listing, Readdir(-1) consumes it; copy-up/write-read-back proved for MemMapFs layers under stated shape hypotheses (_partial). Tie + oracle: union view compared with overlay-over-base computed from direct dumps of both layers after every step, listings in pages (incl. huge counts), entries vs Stat, copy-up of multi-block files, an OsFs overlay scenario.',
  'C07': 'Coq theorems for ANY source with contract K (proved for MemMapFs, inherited through BasePathFs/ReadOnlyFs): mutators return EPERM without consulting the source, reads are transparent, the source view is frozen over all op sequences and all integer flag values. Tie: differential on ro(mem), ro(bp(mem)), ro(ro(mem)); oracle: deep source snapshot per step, flag sweep.',
  'C08': 'Coq theorems for every root and every name string: RealPath results lie segment-wise below the cleaned root (incl. nested roots, Symlink/Lstat/Readlink names, httpDir targets), the wrapper makes one forwarded call whose names are all confined, escaping names are refused without touching the source. Tie: exhaustive RealPath/httpDir comparison on short names, op sequences with prefix-sharing siblings; oracle: everything outside the root unchanged and never leaked.',
  'C09': 'Coq theorems: for in-root names each BasePathFs op equals the source op with Clean(Join(D,name)), Name() is the path relative to D, stacking equals the joined root (for names/roots that never step up; counterexample otherwise), FullBaseFsPath is the joined path. Tie + oracle: twin MemMapFs with joined paths, per-step equality and equal final snapshots.',
@@ -26,11 +26,11 @@ LEVEL_TEXT = {
  'C13': 'Coq theorems for any source and matcher: ops naming a hidden regular file are refused making only Stat probes (so nothing Stat preserves can change), listings from Open/OpenFile handles are filtered, matching files and directories are transparent; MemMapFs instance: snapshot unchanged. Tie + oracle: deep snapshots of every non-matching file per step, leaks in results, transparency sweep; patterns compared with package regexp.',
  'C14': 'Coq theorems for all archives and read programs: reads through any interleaving of handles equal the read-only byte-array spec, no panics, entries found under cleaned names, listings are exactly the children, mutators fail without effect (zipfs and tarfs models). Tie: archives written with archive/zip (Store, Deflate) and archive/tar; oracle: the known entry list.',
  'C15': 'Coq theorems on the IOFS/FromIOFS model: ValidPath characterisation and rejection, sorted complete ReadDir, paging, read/seek/ReadAt agreement (via C02), FromIOFS rejects every mutation. Tie: direct clause checks on generated trees and stacks; search oracle: testing/fstest.TestFS and the generic io/fs helpers.',
- 'C16': 'Coq theorems: afero.Walk = filepath.Walk as functions of (tree, root, callback machine, state) for all inputs; afero.Glob = filepath.Glob for all well-formed escape-free patterns (both transcribed from source, Match shared). Tie: afero on MemMapFs/BasePathFs/CopyOnWriteFs and the real path/filepath on a mirrored temp dir against both transcriptions.',
+ 'C16': 'Coq theorems: afero.Walk = filepath.Walk as functions of (tree, root, callback machine, state) for all inputs; afero.Glob = filepath.Glob for EVERY tree and EVERY pattern (escapes and malformed patterns included; both transcribed from source, Match shared) iff the two switches read from match.go are on. Tie: afero on MemMapFs/BasePathFs/CopyOnWriteFs and the real path/filepath on a mirrored temp dir against both transcriptions.',
  'C17': 'Coq theorems: the windowed search equals bytes.Contains on non-empty needles for every content, needle list and even window factor; WriteFile/WriteReader/SafeWriteReader followed by ReadFile return the bytes given on the MemMapFs model, SafeWriteReader leaves existing files untouched. Tie: exhaustive small contents/needles, boundary-planted matches, payload sizes 0..70000 over wrapper stacks.',
  'C18': 'Coq theorems: candidate names have the documented shape, a successful TempFile/TempDir name is fresh, inside the directory, and nothing else changes (contract form + MemMapFs instance), successive successes are pairwise distinct for any pre-existing set; the concurrent clause reduces to atomic exclusive create (C04). Tie: LCG constants from the source, VerifSetRandNum so model and code draw the same candidates, pre-created colliding candidates, real concurrent callers on MemMapFs and OsFs.',
  'C19': 'Coq theorems on the sftpfs model over an SFTP server model: server content is exactly what the reported write counts account for, reads/seeks/stat equal the byte-array spec, MkdirAll creates ancestors, rename/remove/stat delegate. Tie: sftpfs over an in-process pkg/sftp request server, server content read back through a second client; oracle from reported counts only.',
- 'C20': 'Coq theorems on the gcsfs model over an object-store model: C20_data_exact for all in-class op sequences (store holds the byte-array result after Close, reads return it), folder and listing theorems, Remove/RemoveAll (partly _partial). Tie: gcsfs over an injected in-memory object store with GCS semantics; oracle: object bytes read directly from the store.',
+ 'C20': 'Coq theorems on the gcsfs model over an object-store model (configuration regenerated from gcsfs/*.go): C20_data_exact for all in-class op sequences (store holds the byte-array result after Close, reads return it), a name is a folder iff objects exist below it (every layout), listing once each, Remove refuses non-empty folders, RemoveAll removes exactly the subtree for every store of the layout class at every nesting depth. Tie: gcsfs over an injected in-memory object store with GCS semantics; oracle: object bytes read directly from the store.',
 }
 
 for p in props:
